@@ -277,6 +277,32 @@ class _Gen(object):
                     self.features.add('tuple-class-attr')
                     members.append({'kind': 'value', 'name': name, 'names': [name, other],
                                     'lines': ['%s, %s = 5, 6' % (name, other)]})
+        if self.chance(self.opts.get('lambda_p', 0.3)):
+            # methods written as class-body lambdas: their first parameter is the instance when called on one
+            for _ in range(rng.randint(1, 2)):
+                attr = rng.choice(self.ipool)
+                extra = rng.choice(('', '', ', other=None', ', a=1, *rest', ', **kw'))
+                form = rng.choice(('plain', 'plain', 'property', 'dunder'))
+                if form == 'dunder':
+                    name, pre, suf = rng.choice((('__lt__', 'lambda self, other: ', ' < other.%s' % attr),
+                                                 ('__bool__', 'lambda self: bool(', ')'),
+                                                 ('__int__', 'lambda self%s: int(' % extra, ' or 0)'),
+                                                 ('__neg__', 'lambda self: ', '')))
+                else:
+                    name = rng.choice(self.pool)
+                    if form == 'property':
+                        pre, suf = 'property(lambda self: ', ')'
+                    else:
+                        pre, suf = 'lambda self%s: ' % extra, ''
+                if name in used or any(name in m['names'] for m in members):
+                    continue
+                used.add(name)
+                self.features.add('class-body-lambda:' + form)
+                members.insert(rng.randint(0, len(members)),
+                               {'kind': 'lambda', 'name': name, 'names': [name], 'setter': False,
+                                'risky_property': form == 'property',
+                                'lines': ['%s = %sself.%s%s' % (name, pre, attr, suf)],
+                                'lambda': {'prefix': '    %s = %s' % (name, pre), 'suffix': suf, 'form': form}})
         if self.chance(0.4):
             for dn, params, ret in rng.sample(DUNDERS, rng.randint(1, 3)):
                 self.features.add('dunder-method')
@@ -396,7 +422,7 @@ class _Gen(object):
         property somewhere in the project may raise at run time; such a statement is placed last in its
         function (at most one per function) so that no generated assignment is skipped by an exception."""
         risky = set(m['name'] for c in self.classes for m in c['members']
-                    if m['kind'] == 'property' and not m['setter'])
+                    if (m['kind'] == 'property' and not m['setter']) or m.get('risky_property'))
         for c in self.classes:
             for m in c['members']:
                 if 'head' not in m:
@@ -580,6 +606,9 @@ class _Gen(object):
                     kc = next(k for k in self.classes + [c] if k['name'] == kname)
                     ln = ln.replace('{K:%s}' % kname, self.ref(mod, kc['mod'], kname)[0])
                 out.append(('    ' + ln) if ln else '')
+            if m.get('lambda'):
+                info.append({'cls': c['name'], 'method': m['name'], 'what': 'self', 'first': 'self',
+                             'block_offsets': [start], 'lambda': m['lambda']})
             if m.get('queryable'):
                 # line numbers (1-based, in the final file) are fixed up by the caller through `info`
                 lines = m['lines']
@@ -712,12 +741,22 @@ class _Gen(object):
         # self / cls inside methods (written into the class's own file)
         pts = [it for infos in self.method_points.values() for it in infos]
         rng.shuffle(pts)
-        for it in pts[:4]:
+        lam = [it for it in pts if it.get('lambda')]
+        for it in [it for it in pts if not it.get('lambda')][:4] + lam[:2]:
             line = rng.choice(it['lines'])
+            if it.get('lambda'):
+                # the query REPLACES the lambda's line: `name = lambda self: self.|<suffix>`
+                add('self', 'self in class-body lambda (%s) %s.%s' % (it['lambda']['form'], it['cls'], it['method']),
+                    'self', 'lambda parameter', it['cls'], file=it['file'], module=it['module'], cls=it['cls'],
+                    insert={'line': line, 'indent': it['lambda']['prefix'], 'suffix': it['lambda']['suffix'],
+                            'replace': True})
+                continue
             add(it['what'], '%s in %s.%s' % (it['first'], it['cls'], it['method']), it['first'], 'parameter', it['cls'],
                 file=it['file'], module=it['module'], insert={'line': line, 'indent': ' ' * 8}, cls=it['cls'])
         if len(queries) > budget:
-            keep = sorted(rng.sample(range(len(queries)), budget))
+            fixed = [i for i, qq in enumerate(queries) if (qq['insert'] or {}).get('replace')]
+            rest = [i for i in range(len(queries)) if i not in fixed]
+            keep = sorted(fixed + rng.sample(rest, max(0, budget - len(fixed))))
             queries[:] = [queries[i] for i in keep]
             for i, qq in enumerate(queries):
                 qq['id'] = i
@@ -775,6 +814,7 @@ def gen_project(rng, opts=None):
             'compat_files': {cm.relpath: variant for cm, alias, variant in g.compats.values()},
             'n_methods_with_nested_functions': sum(1 for c in g.classes for m in c['members'] if m.get('nested')),
             'n_conditional_exports': len(g.compats),
+            'n_class_body_lambdas': sum(1 for c in g.classes for m in c['members'] if m.get('lambda')),
             'packages': g.pkgs, 'modules': [m.dotted for m in g.all_modules]}
     return {'files': files, 'queries': queries, 'meta': meta}
 
@@ -793,7 +833,11 @@ def query_text(project, q, attr=None):
         new, col = head, len(head)
     else:
         new, col = head + attr, len(head) + max(1, len(attr) // 2)
-    if ins:
+    if ins and ins.get('replace'):
+        # the query is written inside an existing line (the body of a class-body lambda)
+        ln = ins['line']
+        lines[ln - 1] = new + ins.get('suffix', '')
+    elif ins:
         ln = ins['line']
         lines.insert(ln - 1, new)
     else:
